@@ -5,6 +5,7 @@ package main
 
 import (
 	"context"
+	"errors"
 	"fmt"
 	"hash/fnv"
 	"math/rand/v2"
@@ -20,6 +21,7 @@ import (
 	"github.com/AdguardTeam/AdGuardDNS/internal/dnsmsg"
 	"github.com/AdguardTeam/AdGuardDNS/internal/dnsserver"
 	"github.com/AdguardTeam/AdGuardDNS/internal/dnsserver/cache"
+	"github.com/AdguardTeam/AdGuardDNS/internal/dnssvc"
 	"github.com/AdguardTeam/AdGuardDNS/internal/ecscache"
 	"github.com/AdguardTeam/AdGuardDNS/internal/geoip"
 	"github.com/AdguardTeam/AdGuardDNS/verifh/hlib"
@@ -72,6 +74,7 @@ func main() {
 	m := hlib.StartModel(o.Model, "C04")
 	defer m.Close()
 
+	wiringCampaign(o, r, m)
 	funcCampaign(o, r, m)
 	keyCampaign(o, r, m)
 	boundaryCampaign(o, r, m)
@@ -369,7 +372,29 @@ type universe struct {
 	lastFwd string
 	// handed is the last answer handed to the middleware.
 	handed *dns.Msg
+	// fault makes the next call fail, see the fault* constants.
+	fault int
 }
+
+// Faults of the handler below the cache.
+const (
+	faultNone = iota
+	// faultErr: an error and no message (upstream timeout, cancelled context).
+	faultErr
+	// faultErrAfterWrite: the complete, cacheable answer is written, then an
+	// error is returned (a failure between writing and returning).
+	faultErrAfterWrite
+	// faultNoMsg: no error and no message.
+	faultNoMsg
+	// faultBadECS: the normal answer with an ECS option of an unknown address
+	// family, which dnsmsg.ECSFromMsg rejects (ECS cache only).
+	faultBadECS
+	faultCount
+)
+
+var faultNames = [...]string{"none", "error", "error-after-write", "no-message", "bad-ecs"}
+
+var errUpstream = errors.New("verif: upstream failure")
 
 // fwdTokens renders what the upstream sees of req the way the driver's `fwd`
 // does: DO bit, family, subnet identity.
@@ -679,9 +704,33 @@ func (u *universe) answer(req *dns.Msg) (resp *dns.Msg) {
 func (u *universe) ServeDNS(ctx context.Context, rw dnsserver.ResponseWriter, req *dns.Msg) (err error) {
 	u.calls++
 	u.lastFwd = fwdTokens(req)
-	u.handed = u.answer(req)
+	fault := u.fault
+	u.fault = faultNone
+	switch fault {
+	case faultErr:
+		u.handed = nil
 
-	return rw.WriteMsg(ctx, req, u.handed)
+		return errUpstream
+	case faultNoMsg:
+		u.handed = nil
+
+		return nil
+	}
+	u.handed = u.answer(req)
+	if fault == faultBadECS {
+		if u.handed.IsEdns0() == nil {
+			u.handed.SetEdns0(1232, false)
+		}
+		opt := u.handed.IsEdns0()
+		opt.Option = append([]dns.EDNS0{&dns.EDNS0_SUBNET{Code: dns.EDNS0SUBNET, Family: 3, SourceNetmask: 8,
+			Address: net.IPv4(10, 0, 0, 0).To4()}}, opt.Option...)
+	}
+	err = rw.WriteMsg(ctx, req, u.handed)
+	if fault == faultErrAfterWrite {
+		return errUpstream
+	}
+
+	return err
 }
 
 // expected is what the upstream answers when the middleware forwards q as it
@@ -717,6 +766,28 @@ type caseCfg struct {
 	kind     byte // 's' simple, 'e' ECS
 	minTTL   time.Duration
 	override bool
+	// wired, if not nil, is what the production configuration code made of a
+	// configuration file that asks for minTTL and override (see wiring.go): the
+	// real middleware is built from it, while the oracle and the model go by
+	// minTTL and override, i.e. by what the file says.
+	wired *dnssvc.CacheConfig
+}
+
+// mwMinTTL and mwOverride are what the middleware is constructed with.
+func (c caseCfg) mwMinTTL() time.Duration {
+	if c.wired != nil {
+		return c.wired.MinTTL
+	}
+
+	return c.minTTL
+}
+
+func (c caseCfg) mwOverride() bool {
+	if c.wired != nil {
+		return c.wired.OverrideCacheTTL
+	}
+
+	return c.override
 }
 
 func (c caseCfg) line() string {
@@ -747,7 +818,7 @@ func newGeoIP() *agdtest.GeoIP {
 
 func newHandler(c caseCfg, u *universe, offset func() time.Duration) (h dnsserver.Handler, ev evictor) {
 	if c.kind == 's' {
-		mw := cache.VerifC04NewMiddleware(&cache.MiddlewareConfig{Count: 256, MinTTL: c.minTTL, OverrideTTL: c.override}, offset)
+		mw := cache.VerifC04NewMiddleware(&cache.MiddlewareConfig{Count: 256, MinTTL: c.mwMinTTL(), OverrideTTL: c.mwOverride()}, offset)
 
 		return mw.Wrap(u), func(q reqSpec) { cache.VerifC04Evict(mw, q.msg()) }
 	}
@@ -756,10 +827,10 @@ func newHandler(c caseCfg, u *universe, offset func() time.Duration) (h dnsserve
 		Logger:       slogutil.NewDiscardLogger(),
 		CacheManager: agdcache.EmptyManager{},
 		GeoIP:        newGeoIP(),
-		MinTTL:       c.minTTL,
+		MinTTL:       c.mwMinTTL(),
 		NoECSCount:   256,
 		ECSCount:     256,
-		OverrideTTL:  c.override,
+		OverrideTTL:  c.mwOverride(),
 	}, offset)
 
 	return mw.Wrap(u), func(q reqSpec) {
@@ -1019,6 +1090,17 @@ func checkHit(r *hlib.Result, c caseCfg, q reqSpec, got, fresh *dns.Msg, ageNs i
 
 		return
 	}
+	if fresh.Authoritative != got.Authoritative {
+		// Known (see known_findings.d/C04.json): the simple cache builds its
+		// answer with SetReply and never copies AA.  Any other difference in
+		// this flag is new.
+		sig := pfx + "hit-aa-differs-from-fresh"
+		if c.kind == 's' && fresh.Authoritative && !got.Authoritative {
+			sig = "simple:hit-clears-aa"
+		}
+		r.Violate(sig, fmt.Sprintf("%s: the cached answer has AA=%v, a fresh one AA=%v", q.tokens(), got.Authoritative,
+			fresh.Authoritative), replay())
+	}
 	if !cacheableSpec(fresh, q.qtype) {
 		r.Violate(pfx+"uncacheable-served-from-cache", fmt.Sprintf("%s: answer %s is neither a complete NOERROR/NODATA "+
 			"nor NXDOMAIN nor SERVFAIL but was served from cache", q.tokens(), showMsg(fresh)), replay())
@@ -1045,9 +1127,10 @@ func checkHit(r *hlib.Result, c caseCfg, q reqSpec, got, fresh *dns.Msg, ageNs i
 // Histories.
 
 type op struct {
-	kind  byte // 'q' query, 'e' evict, 'a' advance
+	kind  byte // 'q' query, 'e' evict, 'a' advance, 'f' query while the upstream fails
 	q     reqSpec
 	dtMs  int64
+	fault int
 	label string
 }
 
@@ -1057,6 +1140,8 @@ func (o op) String() string {
 		return "q " + o.q.show()
 	case 'e':
 		return "evict " + o.q.show()
+	case 'f':
+		return "q-upstream-" + faultNames[o.fault] + " " + o.q.show()
 	default:
 		return fmt.Sprintf("advance %dms", o.dtMs)
 	}
@@ -1079,7 +1164,7 @@ func runCase(r *hlib.Result, m *hlib.Model, c caseCfg, useed uint64, ops []op, r
 
 		return fm
 	}
-	hits, misses := 0, 0
+	hits, misses, faults := 0, 0, 0
 	seq := int64(0)
 	start := time.Now()
 	replay := func() any {
@@ -1100,22 +1185,61 @@ func runCase(r *hlib.Result, m *hlib.Model, c caseCfg, useed uint64, ops []op, r
 			evict(o.q)
 			lines = append(lines, "evict "+o.q.tokens())
 			gots = append(gots, "ok")
-		case 'q':
+		case 'q', 'f':
 			before := u.calls
+			if o.kind == 'f' {
+				u.fault = o.fault
+				if !u.ecs && o.fault == faultBadECS {
+					// The simple cache does not read ECS data.
+					u.fault = faultErr
+				}
+			}
 			got, err := exchange(h, o.q)
+			u.fault = faultNone
+			hit := u.calls == before
+			if o.kind == 'f' && !hit {
+				// The request reached the broken upstream: nothing may be
+				// answered and nothing may be remembered (the latter shows in
+				// the following steps: this request is no filler).
+				lines = append(lines, fmt.Sprintf("qf %d %s", nowMs*1e6+seq, o.q.tokens()))
+				gots = append(gots, "F")
+				faults++
+				r.Count(fmt.Sprintf("history.%c.fault.%s", c.kind, faultNames[o.fault]))
+				pfx := "simple:"
+				if u.ecs {
+					pfx = "ecs:"
+				}
+				if got != nil {
+					r.Violate(pfx+"answered-although-upstream-failed", fmt.Sprintf("%s: the upstream failed (%s) but the "+
+						"middleware wrote %s", o.q.show(), faultNames[o.fault], showMsg(got)), replay())
+				}
+				if err == nil && o.fault != faultNoMsg {
+					r.Violate(pfx+"upstream-error-swallowed", fmt.Sprintf("%s: the upstream failed (%s) but the "+
+						"middleware reported success", o.q.show(), faultNames[o.fault]), replay())
+				}
+				if u.handed != nil {
+					clobber(u.handed)
+				}
+
+				continue
+			}
 			if err != nil || got == nil {
 				r.Violate("middleware-error", fmt.Sprintf("%s: error %v, response %v", o.q.show(), err, got), replay())
 
 				return true
 			}
-			hit := u.calls == before
-			ua, scope8, fake := u.expected(o.q)
-			scope := int(scope8)
-			if !u.ecs && len(ua.Question) == 1 {
-				// Simple cache: the class the answer echoes (model `k` only).
-				scope = int(ua.Question[0].Qclass)
+			if o.kind == 'f' {
+				// Served from cache: the upstream was not needed.
+				lines = append(lines, fmt.Sprintf("qf %d %s", nowMs*1e6+seq, o.q.tokens()))
+			} else {
+				ua, scope8, fake := u.expected(o.q)
+				scope := int(scope8)
+				if !u.ecs && len(ua.Question) == 1 {
+					// Simple cache: the class the answer echoes (model `k` only).
+					scope = int(ua.Question[0].Qclass)
+				}
+				lines = append(lines, fmt.Sprintf("q %d %s %d %s %s", nowMs*1e6+seq, o.q.tokens(), scope, b2s(fake), msgTokens(ua)))
 			}
-			lines = append(lines, fmt.Sprintf("q %d %s %d %s %s", nowMs*1e6+seq, o.q.tokens(), scope, b2s(fake), msgTokens(ua)))
 			tag := "M "
 			if hit {
 				tag = "H "
@@ -1158,6 +1282,7 @@ func runCase(r *hlib.Result, m *hlib.Model, c caseCfg, useed uint64, ops []op, r
 		r.Case(strings.Join(lines, "\n"), hits > 0 && misses > 0)
 		r.Distribution[fmt.Sprintf("history.%c.hits", c.kind)] += hits
 		r.Distribution[fmt.Sprintf("history.%c.misses", c.kind)] += misses
+		r.Distribution[fmt.Sprintf("history.%c.faults", c.kind)] += faults
 	}
 	failed = len(r.Violations) > nViolBefore
 	if slow {
@@ -1187,6 +1312,22 @@ var namePool = []string{
 	"example.com.", "EXAMPLE.com.", "ExAmPlE.CoM.", "example.org.", "a.example.com.",
 	"ecs.example.com.", "ECS.example.COM.", "ecs2.example.com.", "noedns.example.com.", "NOEDNS.example.com.",
 	"126.com.", "126.COM.", "nodoecho.example.com.", "NoDoEcho.example.com.", "classecho.example.com.",
+	// Round 4: names of the maximum length that differ in their last resp.
+	// first octet only, one of them also in upper case; labels with escaped
+	// octets (miekg/dns renders a non-printable octet as \DDD and a dot inside
+	// a label as \.): \192 and \224 are different names, case folding is for
+	// ASCII letters only; the root.
+	longName('a', 'a'), longName('a', 'b'), longName('b', 'a'), strings.ToUpper(longName('a', 'b')),
+	"\\192x.example.com.", "\\224x.example.com.", "\\192X.example.com.", "a\\.example.com.", "a.example.com\\.org.", ".",
+}
+
+// longName is a name of 255 octets on the wire: three labels of 63 octets and
+// one of 61; first is its first octet, last its last one.
+func longName(first, last byte) string {
+	l := strings.Repeat("x", 62)
+	end := strings.Repeat("y", 60)
+
+	return string(first) + l + "." + "m" + l + "." + "n" + l + "." + end + string(last) + "."
 }
 
 var qtypePool = []uint16{dns.TypeA, dns.TypeA, dns.TypeAAAA, dns.TypeTXT, dns.TypeCNAME, dns.TypeDS, dns.TypeRRSIG,
@@ -1225,7 +1366,9 @@ func genReq(rng *rand.Rand, names []string, ecs bool) (q reqSpec) {
 }
 
 var advPool = []int64{0, 0, 10, 400, 490, 500, 510, 990, 1000, 1010, 1490, 1500, 1510, 2000, 2500, 3000, 4500, 5000,
-	9500, 10000, 28500, 29500, 30000, 30010, 31000, 59500, 60000, 300000}
+	9500, 10000, 28500, 29500, 30000, 30010, 31000, 59500, 60000, 300000,
+	// Round 4: beyond the expiry of the long-lived answers (TTL 1 h, 1 d, 1 w).
+	3600500, 86400500, 604800500}
 
 var cfgPool = []caseCfg{
 	{minTTL: 0, override: false},
@@ -1285,7 +1428,12 @@ func genHistory(rng *rand.Rand, ecs bool) (ops []op) {
 				q = genReq(rng, names, ecs)
 			}
 			recent = append(recent, q)
-			ops = append(ops, op{kind: 'q', q: q})
+			if rng.IntN(9) == 0 {
+				// The same request while the upstream is broken.
+				ops = append(ops, op{kind: 'f', q: q, fault: 1 + rng.IntN(faultCount-1)})
+			} else {
+				ops = append(ops, op{kind: 'q', q: q})
+			}
 		}
 	}
 
